@@ -12,7 +12,7 @@ Inductive oline :=
 
 Definition status_lines (w : world) (e : event) : list oline :=
   match e with
-  | EvChunk c _ | EvEof c =>
+  | EvChunk c _ | EvEof c | EvReset c | EvTimeout c =>
       let cn := get_conn (w_limit w) c (w_conns w) in
       [OS c (status_code cn) (blen (cn_buf cn)) (cn_skip cn)]
   | _ => []
